@@ -111,6 +111,10 @@ pub open spec fn e_lvtt(labels: Labels, p: PoolWrite, lv: Lv) -> (Seq<u8>, PoolW
 }
 pub open spec fn count_desc(l: Seq<Lv>, k: int) -> int decreases k { if 0 < k <= l.len() { count_desc(l, k - 1) + (if l[k - 1].descriptor is Some { 1int } else { 0int }) } else { 0 } }
 pub open spec fn count_sign(l: Seq<Lv>, k: int) -> int decreases k { if 0 < k <= l.len() { count_sign(l, k - 1) + (if l[k - 1].signature is Some { 1int } else { 0int }) } else { 0 } }
+// JVMS 4.7.30 record_component_info: what write_record_component appends for a component (opaque here; its attribute section is verified in unit wattrs)
+pub uninterp spec fn e_component(p: PoolWrite, c: RecordComponent) -> (Seq<u8>, PoolWrite);
+#[verifier::external_body] pub fn write_record_component(writer: &mut Vec<u8>, record_component: &RecordComponent, pool: &mut PoolWrite) -> (res: Result<(), VErr>)
+    ensures res.is_ok() ==> final(writer)@ == old(writer)@ + e_component(*old(pool), *record_component).0 && *final(pool) == e_component(*old(pool), *record_component).1 { unimplemented!() }
 // the first k entries of a list, each through the pool the previous one left
 pub open spec fn w_fold<X>(p: PoolWrite, s: Seq<X>, k: int, f: spec_fn(PoolWrite, X) -> (Seq<u8>, PoolWrite)) -> (Seq<u8>, PoolWrite) decreases k {
     if 0 < k <= s.len() { let r = w_fold(p, s, k - 1, f); let e = f(r.1, s[k - 1]); (r.0 + e.0, e.1) } else { (Seq::<u8>::empty(), p) }
@@ -219,7 +223,7 @@ def build(u):
     u.preamble('common.rs')
     u.preamble('bytes.rs')
     add_classwrite(u, [])
-    opaque(u, ['ClassName', 'PackageName', 'JavaString', 'ParameterName', 'InnerClassFlags', 'ParameterFlags', 'PoolWrite', 'Labels', 'Label', 'Handle', 'LabelRange', 'LocalVariableName', 'FieldDescriptor', 'FieldSignature'])
+    opaque(u, ['ClassName', 'PackageName', 'JavaString', 'ParameterName', 'InnerClassFlags', 'ParameterFlags', 'PoolWrite', 'Labels', 'Label', 'Handle', 'LabelRange', 'LocalVariableName', 'FieldDescriptor', 'FieldSignature', 'RecordComponent'])
     u.item(T + 'method/code.rs', 'struct', 'Exception', derives=[])
     u.item('duke/src/simple_class_writer/pool.rs', 'struct', 'BootstrapMethodWrite', derives=[])
     u.item(T + 'method/code.rs', 'struct', 'LvIndex', derives=[])
@@ -285,6 +289,21 @@ def build(u):
          ensures=[C('C02.warm.BOOTSTRAP_METHODS.count-equals-the-number-of-methods-each-with-its-handle-its-argument-count-and-its-argument-indices',
                     f'res.is_ok() ==> {n} <= 0xffff && final(w).bytes() == {W0} + {cnt} + w_fold({P0}, {M}, {n} as int, {f}).0'),
                   C('C02.warm.BOOTSTRAP_METHODS.pool-holds-exactly-the-puts-of-the-handles-in-order', f'res.is_ok() ==> *final(pool) == w_fold({P0}, {M}, {n} as int, {f}).1')])
+    # ---- Record: the count, then every component through write_record_component (its own attribute section is unit wattrs; here an opaque function of (pool, component))
+    body, line = closure_of(u, 'write', 'RECORD')
+    R, W0, P0 = 'record_components@', 'old(w).bytes()', '*old(pool)'
+    cnt = f'be16({R}.len() as u16)'
+    f = '|q: PoolWrite, x| e_component(q, x)'
+    lab = 'C02.warm.RECORD.inv.count-then-the-components-so-far-in-order'
+    u.fn(W, 'write::warm_klass_RECORD', ret='res', proof_label=lab,
+         synth=dict(sig='pub fn warm_klass_RECORD(w: &mut Vec<u8>, pool: &mut PoolWrite, record_components: &Vec<RecordComponent>) -> Result<()>', body='{' + body + '}', line=line),
+         rewrites=[(r'&class\.record_components\b', 'record_components'), (r'\bclass\.record_components\b', 'record_components')],
+         opt_rewrites=[(r'\bfor (\w+) in (record_components) \{', r'for \1 in iter: \2 {')],
+         loops={0: dict(invariant=[C(lab, f'{R}.len() <= 0xffff && w.bytes() == {W0} + {cnt} + w_fold({P0}, {R}, iter.index@ as int, {f}).0 && *pool == w_fold({P0}, {R}, iter.index@ as int, {f}).1')],
+                        body_start=f'proof {{ lemma_fold_step({P0}, {R}, iter.index@ as int, {f}, {W0} + {cnt}); }}',
+                        body_end=f'proof {{ assert(w.bytes() =~= {W0} + {cnt} + w_fold({P0}, {R}, iter.index@ as int + 1, {f}).0); }}')},
+         ensures=[C('C02.warm.RECORD.count-equals-the-number-of-components-and-each-is-written-once-in-order',
+                    f'res.is_ok() ==> {R}.len() <= 0xffff && final(w).bytes() == {W0} + {cnt} + w_fold({P0}, {R}, {R}.len() as int, {f}).0 && *final(pool) == w_fold({P0}, {R}, {R}.len() as int, {f}).1')])
     # ---- LocalVariableTable / LocalVariableTypeTable: one entry per local variable with a descriptor / signature; the count is the variable `desc` / `sign` the
     # counting loop of write_code left (unit wattrs proves desc == count_desc(..) / sign == count_sign(..) at the end of that loop)
     for attr, cntvar, cntfn, enc in (('LOCAL_VARIABLE_TABLE', 'desc', 'count_desc', 'e_lvt'), ('LOCAL_VARIABLE_TYPE_TABLE', 'sign', 'count_sign', 'e_lvtt')):
